@@ -177,18 +177,24 @@ def finish {N : Type} (name : Option (List Nat)) (cs : List (Corr × Rat)) (uq :
   | none => .ok ⟨name, cs, none, uq⟩
   | some (lo, hi) => if lo ≤ hi then .ok ⟨name, cs, some (lo, hi), uq⟩ else .error .emptyRange
 
+/-- the `if lib.uq_contents:` block of `__init__` -/
+def uqPart (lib : Library N S) (groups : List (N × Rat)) : Except (EstErr N) (Option UQE) :=
+  match lib.uq with
+  | none => .ok none
+  | some u =>
+    match buildUQ u groups with
+    | .error e => .error e
+    | .ok q => .ok (some q)
+
 /-- `ThermochemGroupAdditive.__init__(lib, groups)`: the `(correlation, count)` list, then the uncertainty
 block (only when `lib.uq_contents` is truthy), then the range assertion -/
 def construct (lib : Library N S) (s : S) (groups : List (N × Rat)) : Except (EstErr N) Estimator :=
   match collect lib s groups with
   | .error e => .error e
   | .ok cs =>
-    match lib.uq with
-    | none => finish lib.name cs none
-    | some u =>
-      match buildUQ u groups with
-      | .error e => .error e
-      | .ok q => finish lib.name cs (some q)
+    match uqPart lib groups with
+    | .error e => .error e
+    | .ok uq => finish lib.name cs uq
 
 /-- `GroupLibrary.Estimate(groups, property_set_name)`; `registered` = keys of `_property_set_estimator_types` -/
 def estimate (registered : List S) (lib : Library N S) (groups : List (N × Rat)) (s : S) :
